@@ -49,8 +49,25 @@ def _elem_is(ty: Any, approx: Set[ClassInfo]) -> bool:
     return bool(ty) and ty.elem is not None and _is(ty.elem, approx)
 
 
-def sites(ctx: Ctx, module_prefixes: Sequence[str]) -> Tuple[List[Dict[str, Any]], int]:
-    """(findings, number of functions scanned) over the modules whose short name starts with one of the prefixes"""
+def reachable_from(ctx: Ctx, root_names: Sequence[str], root_module_prefixes: Sequence[str]) -> Set[str]:
+    """qualified names of the functions the call graph reaches from every function / method with one of the given names
+    defined in the given modules (dynamic dispatch over-approximated: all overriding subclasses)"""
+    from ..callgraph import CallGraph
+
+    g = getattr(ctx, "_approx_key_graph", None)
+    if g is None:
+        g = ctx._approx_key_graph = CallGraph(ctx.repo)  # type: ignore
+    roots = []
+    for fn in ctx.repo.all_functions().values():
+        short_mod = fn.module.name[len("pydsdl."):] if fn.module.name.startswith("pydsdl.") else fn.module.name
+        if fn.name in root_names and any(short_mod == p or short_mod.startswith(p) for p in root_module_prefixes):
+            roots.append(fn.qualname)
+    return set(g.reachable(roots))
+
+
+def sites(ctx: Ctx, module_prefixes: Sequence[str], only: Optional[Set[str]] = None) -> Tuple[List[Dict[str, Any]], int]:
+    """(findings, number of functions scanned) over the modules whose short name starts with one of the prefixes; with
+    `only`, restricted to the functions with those qualified names (and what is nested in them)"""
     repo = ctx.repo
     cache = getattr(ctx, "_approx_key_cache", None)
     if cache is None:
@@ -65,6 +82,12 @@ def sites(ctx: Ctx, module_prefixes: Sequence[str]) -> Tuple[List[Dict[str, Any]
             continue
         if fn.short in EXEMPT:
             continue
+        if only is not None:
+            top = fn
+            while top.parent is not None:
+                top = top.parent
+            if top.qualname not in only:
+                continue
         scanned += 1
         if fn.short in cache:
             found.extend(cache[fn.short])
@@ -122,7 +145,7 @@ def sites(ctx: Ctx, module_prefixes: Sequence[str]) -> Tuple[List[Dict[str, Any]
         cache[fn.short] = mine
         found.extend(mine)
     # module-level memo wrappers (`f = functools.lru_cache(...)(g)`)
-    for m in repo.modules.values():
+    for m in repo.modules.values() if only is None else []:
         short_mod = m.name[len("pydsdl."):] if m.name.startswith("pydsdl.") else m.name
         if not any(short_mod == p or short_mod.startswith(p) for p in module_prefixes):
             continue
@@ -146,13 +169,20 @@ def positive_control(ctx: Ctx) -> bool:
     return _is(T.expr(fi, sub.slice, loc), approx_classes(ctx))
 
 
-def rule(ctx: Ctx, rid: str, module_prefixes: Sequence[str], message: str, anchor_where: str) -> None:
-    """one instance per scanned module set; every finding is listed in the detail"""
+def rule(ctx: Ctx, rid: str, module_prefixes: Sequence[str], message: str, anchor_where: str, roots: Optional[Sequence[str]] = None, min_reached: int = 0) -> None:
+    """one instance per scanned module set; every finding is listed in the detail.  With `roots` (function / method names),
+    only what the call graph reaches from the functions of that name in the given modules is scanned."""
     from ..core import AnalysisError
 
     if not positive_control(ctx):
         raise AnalysisError("%s: the positive control (a dict keyed by a BitLengthSet parameter) was not recognised" % rid)
-    found, scanned = sites(ctx, module_prefixes)
+    only = None
+    if roots is not None:
+        only = reachable_from(ctx, roots, module_prefixes)
+        ctx.analysed[rid + ".reached_functions"] = len(only)
+        if len(only) < min_reached:
+            raise AnalysisError("%s: only %d functions reached from %s (expected at least %d): the anchors are gone" % (rid, len(only), list(roots), min_reached))
+    found, scanned = sites(ctx, ["_bit_length_set", "_serializable", "_serdes", "_data_type_builder", "_expression"] if only is not None else module_prefixes, only)
     ctx.count(scanned)
     ctx.analysed[rid + ".functions_scanned"] = scanned
     where = found[0]["where"] if found else anchor_where
